@@ -34,12 +34,7 @@ impl InfoSubset {
 //@  | InfoSubset::(\w+) \| InfoSubset::(\w+)
 //@  > InfoSubset::\1.union(InfoSubset::\2)
 //@  ret r
-//@  spec
-        requires self.bits < 1024,
-        ensures
-            normalized(r.bits), r.bits < 1024,
-            // only SURFACE / HEAD_WORD_LENGTH are added, nothing is removed
-            r.bits & self.bits == self.bits, r.bits & !(self.bits | 3u32) == 0,
+//@  specfile specs/normalize.contract
 //@  atstart
         let mut __self = self;   // R10
         proof {
